@@ -28,43 +28,33 @@ theorem htmlEscape_safe (s : Bytes) : SafeHtmlEncoding (htmlEscape s) s :=
    htmlUnescape_htmlEscape s⟩
 
 example : htmlEscape [60, 97, 62, 38, 34, 39] =
-    [38, 108, 116, 59, 97, 38, 103, 116, 59, 38, 97, 109, 112, 59, 38, 35, 51, 52, 59, 38, 35, 51, 57, 59] := by decide
+    [38, 108, 116, 59, 97, 38, 103, 116, 59, 38, 97, 109, 112, 59, 38, 113, 117, 111, 116, 59, 38, 35, 51, 57, 59] := by decide
 example : htmlUnescape [38, 108, 116, 59, 97, 38, 103, 116, 59] = [60, 97, 62] := by decide
 /- the specification rejects raw text and cut references -/
 example : noRawSpecial [60, 97, 62] = false := by decide
 example : ampsStartRefs [38, 108, 60, 119, 98, 114, 62, 116, 59] = false := by decide
 
-/-- (2) text/template.HTMLEscapeString (escapeHtml, and the first step of changeNewlineToBr /
-    insertWordBreaks) on NUL-free input -/
-theorem goHtmlEscape_safe (s : Bytes) (h : ∀ b ∈ s, b ≠ 0) : SafeHtmlEncoding (goHtmlEscape s) s := by
-  rw [goHtmlEscape_eq_of_nulFree s h]; exact htmlEscape_safe s
-
-/-- … and on arbitrary input: NUL (which cannot be written in HTML) is replaced by U+FFFD,
-    everything else as above. -/
-theorem goHtmlEscape_safe_nul (s : Bytes) : SafeHtmlEncoding (goHtmlEscape s) (nulToFFFD s) :=
-  ⟨(noRawSpecial_iff _).1 (goHtmlEscape_noRaw s), (ampsStartRefs_iff _).1 (goHtmlEscape_amps s),
-   htmlUnescape_goHtmlEscape s⟩
-
-example : goHtmlEscape [60, 0, 39] = [38, 108, 116, 59, 239, 191, 189, 38, 35, 51, 57, 59] := by decide
-example : nulToFFFD [97, 0] = [97, 239, 191, 189] := by decide
+/- (2) since /repo c835e8f the escaping directives (escapeHtml, and the first step of changeNewlineToBr /
+   insertWordBreaks) call the renderer's own escaper, so (1) covers them; text/template.HTMLEscapeString
+   (which replaced NUL by U+FFFD and wrote &#34;) is no longer part of soy. -/
 
 /-- the HTML-producing directives that cancel autoescaping still escape every data byte they
     pass through: with the tags they insert themselves removed, the output of escapeHtml,
-    changeNewlineToBr and insertWordBreaks is a safe encoding of the value (NUL -> U+FFFD; for
+    changeNewlineToBr and insertWordBreaks is a safe encoding of the value (for
     changeNewlineToBr without its line breaks); see C16 for "no reference is cut". -/
 theorem escaping_directives_safe (s : Bytes) (n : Int) :
-    SafeHtmlEncoding (goHtmlEscape s) (nulToFFFD s) ∧
-    SafeHtmlEncoding (removeTag brTag (changeNewlineToBr s)) (nulToFFFD (s.filter notNL)) ∧
-    SafeHtmlEncoding (removeTag wbrTag (insertWordBreaks s n)) (nulToFFFD s) := by
-  refine ⟨goHtmlEscape_safe_nul s, ?_, ?_⟩
-  · have : removeTag brTag (changeNewlineToBr s) = goHtmlEscape (s.filter notNL) := by
+    SafeHtmlEncoding (htmlEscape s) s ∧
+    SafeHtmlEncoding (removeTag brTag (changeNewlineToBr s)) (s.filter notNL) ∧
+    SafeHtmlEncoding (removeTag wbrTag (insertWordBreaks s n)) s := by
+  refine ⟨htmlEscape_safe s, ?_, ?_⟩
+  · have : removeTag brTag (changeNewlineToBr s) = htmlEscape (s.filter notNL) := by
       unfold removeTag changeNewlineToBr
-      rw [removeBr_nlToBr _ (fun b hb => ((noRawSpecial_iff _).1 (goHtmlEscape_noRaw s) b hb).1), filter_notNL_goHtmlEscape]
-    rw [this]; exact goHtmlEscape_safe_nul _
-  · have : removeTag wbrTag (insertWordBreaks s n) = goHtmlEscape s := by
+      rw [removeBr_nlToBr _ (fun b hb => ((noRawSpecial_iff _).1 (htmlEscape_noRaw s) b hb).1), filter_notNL_htmlEscape]
+    rw [this]; exact htmlEscape_safe _
+  · have : removeTag wbrTag (insertWordBreaks s n) = htmlEscape s := by
       unfold removeTag insertWordBreaks
-      exact removeWbr_wordBreaks n _ (fun b hb => ((noRawSpecial_iff _).1 (goHtmlEscape_noRaw s) b hb).1) 0 0 false
-    rw [this]; exact goHtmlEscape_safe_nul _
+      exact removeWbr_wordBreaks n _ (fun b hb => ((noRawSpecial_iff _).1 (htmlEscape_noRaw s) b hb).1) 0 0 false
+    rw [this]; exact htmlEscape_safe _
 
 /-- (3) the escape decision of evalPrint: in a mode other than Off, a print whose directives
     (obligatory ones included) all exist in the table without the cancel flag writes exactly
